@@ -115,6 +115,19 @@ CATALOGUE = [
     ("result-type", "slist", "{ if ({B_d}) return [{I_d}]; if (!{B_d}) return []; return [{S_d}]; }"),
     ("result-type", "peer", "{ if ({B_d}) return other1; if (!{B_d}) return null; return a; }"),
     ("result-type", "dval", "{ if ({B_d}) return {I_d}; if (!{B_d}) return 0; return 1; }"),
+    # (rows found with a coverage measurement of the quick tiers: constructs whose rejecting code no workload had reached)
+    # a switch has at most one default clause; a subscript takes an integer index and a list operand
+    ("unsupported", "ival", "{ switch ({I_d}) { default: return 1; default: return 2; } }"),
+    ("unsupported", "ival", "{ switch ({I_d}) { case 1: return 0; default: return 1; case 2: return 3; default: return 2; } }"),
+    ("operand-types", "sval", "{L_d}[{S}]"), ("operand-types", "sval", "{L_d}[{B}]"), ("operand-types", "sval", "{L_d}[{D}]"),
+    ("operand-types", "ival", "{I_d}[0]"), ("operand-types", "sval", "{S_d}[0]"), ("operand-types", "ival", "[1, 2][{D}]"),
+    # `as` converts among numbers, from enum / bool to integer, to void, and out of a QVariant - nothing else
+    ("operand-types", "ival", "({S} as int)"), ("operand-types", "sval", "({I} as QString)"), ("operand-types", "bval", "({I} as bool)"),
+    ("operand-types", "peer", "({P_d} as VfSub)"), ("operand-types", "mode", "({I} as VfWidget.Mode)"), ("operand-types", "dval", "({S} as double)"),
+    ("operand-types", "slist", "({S} as QStringList)"), ("operand-types", "ival", "({P_d} as int)"), ("operand-types", "bval", "({P_d} as bool)"),
+    ("result-type", "ival", "({I} as void)"), ("result-type", "ival", "a.vval"), ("result-type", "sval", "a.vval"), ("result-type", "ival", "(a.vval as QString)"),
+    ("result-type", "sval", "(a.vval as int)"), ("operand-types", "ival", "a.vval + 1"), ("operand-types", "bval", "a.vval == 1"),
+    ("condition", "ival", "a.vval ? 1 : 2"), ("arguments", "ival", "a.twice(a.vval)"), ("assignment", "ival", "{ a.ival = a.vval; 1 }"),
 ]
 
 # well-typed controls built from the same vocabulary (must be accepted)
@@ -135,6 +148,12 @@ CONTROLS = [
     ("peer", "{ if ({B_d}) return null; if (!{B_d}) return a; return b; }"),
     ("ival", "{ badge1.mode3 = VfWidget.ModeB; badge1.shape = VfBadge.Circle; 1 }"), ("bval", "badge1.mode3 == VfWidget.ModeA && badge1.shape != VfBadge.Square"),
     ("bval", "[a, null, null].isEmpty()"), ("bval", "[null, a, b].isEmpty()"), ("bval", "[{I_d}, 0, 1].isEmpty()"), ("bval", "[[{S_d}], [], [{S}]].isEmpty()"),
+    # documented constructs no workload had reached (coverage measurement): unary plus, console.debug, discarding casts, extraction
+    # of the value stored in a QVariant, enum / bool to uint, a list subscripted by uint
+    ("ival", "+{I_d}"), ("dval", "+{D_d} - +{D}"), ("ival", "{ console.debug({I}, {S}); 1 }"), ("ival", "{ ({I_d} as void); a.twice({I}) as void; 1 }"),
+    ("ival", "(a.vval as int) + {I}"), ("sval", "(a.vval as QString) + {S}"), ("bval", "(a.vval as bool) || {B_d}"), ("dval", "(a.vval as double) * {D}"),
+    ("uval", "(a.vval as uint) + {U_d}"), ("peer", "a.vval as VfWidget"), ("uval", "({M_d} as uint) + ({B_d} as uint)"), ("sval", "{L_d}[{U_d}]"),
+    ("ival", "{ let v: QVariant = a.vval; (v as int) }"),
 ]
 
 
